@@ -23,6 +23,18 @@ def aesHandler (op : String) (args : List String) : Option String :=
     let sb ← if salt = "-" then some [] else parseHex salt
     let pw ← parseNats cs
     pure (toHex (Impl.keyMaterial sb pw))
+  | "aes.mode", [ctor, ops] => do
+    let c ← parseBool ctor
+    let os ← (if ops = "-" then some [] else (ops.splitOn ",").mapM (fun o =>
+      if o = "enc+" then some (Impl.ModeOp.setEncrypted true)
+      else if o = "enc-" then some (Impl.ModeOp.setEncrypted false)
+      else if o = "encoded+" then some (Impl.ModeOp.setEncoded true)
+      else if o = "encoded-" then some (Impl.ModeOp.setEncoded false)
+      else none))
+    let m := os.foldl Impl.stepMode (Impl.initMode c)
+    let form := match Impl.headerForm m with
+      | .raw => "raw" | .encoded => "encoded" | .encrypted => "encrypted"
+    pure s!"{if m.encoded then 1 else 0} {if m.encrypted then 1 else 0} {form}"
   | _, _ => none
 
 end SevenZ.Driver
